@@ -95,6 +95,7 @@ def run(ctx):
     r05_4(ctx)
     r05_5(ctx)
     r05_6(ctx)
+    r05_8(ctx)
     # shared clauses: recorded diffs are never discarded without a replacing Clear (C07/R07.3),
     # a received batch is delivered before the end of the stream (C08/R08.3)
     from . import c07, c08
@@ -322,3 +323,29 @@ def r05_6(ctx):
             out = f.raw["sig"]["output"]
             if re.search(r"&(?:'\w+ )?mut (imbl::|T\b)", out):
                 ctx.violated("R05.6", f, "returns-&mut", f.loc(), "public function returns `%s`" % out)
+
+
+def r05_8(ctx):
+    """changes made through entry / entries / for_each go through the container's own mutators (so they publish like direct calls)."""
+    F = ctx.facts
+    n = 0
+    fam = [("vector::entry::ObservableVectorEntry<", "vector::ObservableVector<"),
+           ("vector::transaction::ObservableVectorTransactionEntry<", "vector::transaction::ObservableVectorTransaction<")]
+    for entry_p, cont_p in fam:
+        for f in F.find(crate=IM):
+            st = f.raw.get("self_ty") or ""
+            if not st.startswith(entry_p) or not f.built:
+                continue
+            b = f.built
+            # no direct mutation of the contents from an entry
+            direct = values_mutations(b)
+            for blk, t, m in direct:
+                n += 1
+                ctx.violated("R05.8", f, "entry-mutates-directly:%s" % m, b.line_at((blk, 10 ** 6)),
+                             "entry `%s` applies `%s` to the contents directly: the change is not published as a diff" % (f.path, m))
+            if f.name in ("set", "remove") and not f.raw.get("impl_trait"):
+                n += 1
+                calls = [F.local_callee(f, t) for _, t in b.calls() if F.local_callee(f, t) is not None and (F.local_callee(f, t).raw.get("self_ty") or "").startswith(cont_p) and F.local_callee(f, t).name == f.name]
+                ctx.verdict(len(calls) == 1, "R05.8", f, "entry-routes-through-mutator", f.loc(), "entry.%s calls the container's public `%s` exactly once" % (f.name, f.name),
+                            "entry `%s` does not go through the container's `%s` (calls: %d): the change would not be published like a direct call" % (f.path, f.name, len(calls)))
+    ctx.floor("R05.8", n, 4)
